@@ -222,8 +222,36 @@ def run(ctx):
                           % (api if not isinstance(api, list) else len(api), len(direct)),
                           {'kind': 'code->spec', 'stream': describe(w, stream)})
     ctx.extra['code_to_spec'] = {'streams': nv, 'permutation_runs': nperm, 'api_runs': napi}
+    if not ctx.quick:
+        ctx.extra['apalache_inductive'] = apalache_inductive(ctx)
     ctx.assumptions += ['addresses are BASE + x*0x1000 (order preserving); stand-alone shared-cache records are not '
                         'treated as announcements by the tool and are not generated outside launch windows']
+
+
+def apalache_inductive(ctx):
+    """Extra (thorough tier): symbolic inductive check with Apalache that the image table stays strictly ascending,
+    unique and first-identity-keeping for ARBITRARY integer addresses (tables <= 4 entries): Init => IndInv,
+    IndInv /\\ Next => IndInv'; the unguarded insert (negative control) must be refuted."""
+    import os
+    import shutil
+    import subprocess
+    if not shutil.which('apalache-mc'):
+        return {'skipped': 'apalache-mc not on PATH'}
+    d = os.path.join(os.path.dirname(os.path.dirname(os.path.abspath(__file__))), 'spec', 'apalache')
+    out = os.path.join(ctx.workdir, 'apa')
+    res = {}
+    for name, mod, init, length, want in (('base', 'MC_CallstacksInd.tla', 'Init', 0, True),
+                                          ('step', 'MC_CallstacksInd.tla', 'IndInit', 1, True),
+                                          ('negative_control', 'MC_CallstacksInd_neg.tla', 'IndInit', 1, False)):
+        p = subprocess.run(['apalache-mc', 'check', '--init=' + init, '--inv=IndInv', '--length=%d' % length,
+                            '--out-dir=' + out, mod], cwd=d, stdout=subprocess.PIPE, stderr=subprocess.STDOUT, text=True,
+                           timeout=1800)
+        ok = 'EXITCODE: OK' in p.stdout
+        res[name] = 'holds' if ok else 'refuted'
+        if ok != want:
+            raise RuntimeError('Apalache %s: expected %s\n%s' % (name, 'OK' if want else 'a counterexample', p.stdout[-1500:]))
+    shutil.rmtree(out, ignore_errors=True)
+    return res
 
 
 def replay(ctx, path):
